@@ -25,6 +25,7 @@ for name in sorted(os.listdir(V + "/seeded")):
     finally:
         subprocess.call(["git", "-C", "/repo", "reset", "-q"])
         subprocess.call(["git", "-C", "/repo", "checkout", "--", "."])
+        subprocess.call(["git", "-C", "/repo", "clean", "-fdq", "--", "lib"])
     rules = sorted(set(re.findall(r"^  rule (\S+)", p.stdout, re.M)))
     first = re.findall(r"^  rule .*$", p.stdout, re.M)[:1]
     if p.returncode == 1 and rules:
